@@ -1,3 +1,337 @@
+//! Lazy merges, actions and hello: C04, C07, C19 (and C01 through action + delivery).
+use std::collections::BTreeSet;
+
+use graphkit::{audit::*, dag::*, driver::*, r#gen::*, model::*, replica::*};
 use vcore::*;
-use crate::Mons;
-pub fn case(_cs: u64, _args: &Args, _mons: &mut Mons, _case: &Value) {}
+
+use crate::{all_bits, final_view, Mons};
+
+fn gen_action(rng: &mut Rng, nonce: u64, tag_base: u32) -> (ActionScript, &'static str) {
+    let k = rng.weighted(&[1, 4, 3, 2, 1, 1]);
+    let mut publish = vec![];
+    for i in 0..k {
+        let mut ops = vec![];
+        for j in 0..rng.urange(0, 2) {
+            let n = rng.below(NAMES.len() as u64) as u8;
+            if rng.chance(1, 4) {
+                ops.push(Op::Del { n, k: gen_key(rng) });
+            } else {
+                ops.push(Op::Put { n, k: gen_key(rng), v: vec![0xAC, i as u8, j as u8, (nonce & 0xff) as u8] });
+            }
+        }
+        publish.push(PubSpec {
+            prio: Some(Prio::Basic(rng.below(3) as u32)),
+            script: Script { tag: tag_base + i as u32, quiet: rng.chance(1, 5), ops },
+        });
+    }
+    let mut act = ActionScript { dump: true, observe: vec![], publish, fail_after: None, nonce };
+    let kind = match rng.weighted(&[6, 2, 2]) {
+        0 => "success",
+        1 => {
+            act.fail_after = Some(rng.usize(k + 1));
+            "action-fails-after-j-publishes"
+        }
+        _ if k > 0 => {
+            let j = rng.usize(k);
+            let at = rng.usize(act.publish[j].script.ops.len() + 1);
+            act.publish[j].script.ops.insert(at, Op::Fail);
+            "published-command-rejected-after-writes"
+        }
+        _ => "success",
+    };
+    (act, kind)
+}
+
+pub fn case(cs: u64, args: &Args, mons: &mut Mons, case: &Value) {
+    let _ = args;
+    let mut rng = Rng::new(cs);
+    let mut cfg = GenCfg::small(&mut rng);
+    // favour multi-head outcomes
+    cfg.shape = *rng.pick(&[Shape::Random, Shape::Fan, Shape::Fan, Shape::Diamonds, Shape::DeepLca, Shape::Ladder]);
+    cfg.width = rng.urange(2, 40);
+    if cfg.shape == Shape::Fan {
+        cfg.n = cfg.n.max(cfg.width * 2);
+    }
+    let mut model = DagGen::new(cfg, &mut rng).build();
+    let base_all = all_bits(&model);
+    let init = model.node(0).id;
+    let none = Bits::new(model.len());
+    let mut obs = Obs::default();
+
+    // Replica A and A2 hold the same commands via different histories.
+    let mut a = MemReplica::new_mem(&init);
+    let mut a2 = MemReplica::new_mem(&init);
+    for r in [&mut a, &mut a2] {
+        let h = HistCfg::random(&mut rng);
+        let steps = history(&model, &|_| true, &h, &mut rng);
+        let out = run_history(r, &mut model, &steps, &none, &RunCfg { check_every_commit: false, check_blocks: false }, &mut obs);
+        if out.aborted || out.committed != base_all {
+            mons.take(obs, case);
+            return;
+        }
+    }
+    let heads_before = a.heads().unwrap();
+    let nheads = heads_before.len();
+    let facts_before = a.facts().unwrap();
+    let hello_before = a.hello().unwrap();
+    let walk_before: BTreeSet<Id> = a.walk().unwrap().keys().copied().collect();
+
+    // C19 on the pre-action state: B holds a random down-set.
+    c19_pairs(&mut a, &mut model, &base_all, &mut rng, &mut obs);
+    // equal head sets => equal hello heads
+    if a2.hello().ok() != Some(hello_before) {
+        obs.fail("C19", "equal-head-sets-different-hello-heads", json!({"heads": nheads}));
+    }
+
+    let (act, kind) = gen_action(&mut rng, cs, 0x4000_0000);
+    a.take_log();
+    let res = a.action(&act);
+    let log = a.take_log();
+    let dump = log.iter().find_map(|e| if let Event::ActionDump(d) = e { Some(d.clone()) } else { None });
+    let published: Vec<Published> = log.iter().filter_map(|e| if let Event::Published(p) = e { Some(p.clone()) } else { None }).collect();
+    let (bl, _) = blocks(&log);
+    let consumed_braid = log.iter().any(|e| matches!(e, Event::SinkConsume(eff) if eff.place == Place::Braid));
+    obs.count("actions", 1);
+    obs.count(&format!("actions_{kind}"), 1);
+    obs.max("max_heads_collapsed", nheads as u64);
+
+    // C04: what the action saw is what queries saw; the collapse emits nothing.
+    if let Some(d) = &dump {
+        if *d != facts_before {
+            obs.fail("C04", "action-sees-different-facts-than-queries", json!({"heads": nheads, "diff": facts_diff(d, &facts_before)}));
+        }
+    } else {
+        obs.fail("C04", "action-never-ran", json!({"res": format!("{res:?}")}));
+    }
+    if consumed_braid {
+        obs.fail("C04", "collapse-emitted-effects", json!({"heads": nheads}));
+    }
+    if bl.len() != 1 {
+        obs.fail("C04", "action-used-more-than-one-sink-transaction", json!({"blocks": bl.len(), "heads": nheads}));
+    }
+    let expect_ok = kind == "success";
+    match (&res, expect_ok) {
+        (Ok(()), true) => {
+            // C07 success: one head, descends from every previous head; facts = reference.
+            let w = a.walk().unwrap();
+            match adopt(&mut model, &w) {
+                Err(e) => obs.fail("C07", "graph-after-action-not-explained", json!({"why": e})),
+                Ok(newv) => {
+                    let all = all_bits(&model);
+                    let heads_after = a.heads().unwrap();
+                    if heads_after.len() != 1 {
+                        obs.fail("C07", "action-left-more-than-one-head", json!({"heads": heads_after.len()}));
+                    } else {
+                        let hv = model.idx(&heads_after[0].0).unwrap();
+                        for (hid, _) in &heads_before {
+                            let pv = model.idx(hid).unwrap();
+                            if !model.anc_eq(pv, hv) {
+                                obs.fail("C07", "new-head-does-not-descend-from-previous-head", json!({"prev": short(hid)}));
+                            }
+                        }
+                    }
+                    // command set = old + collapse merges + published
+                    let pubs: BTreeSet<Id> = published.iter().map(|p| p.id).collect();
+                    for &v in &newv {
+                        let n = model.node(v);
+                        if !matches!(n.par, Par::Merge(..)) && !pubs.contains(&n.id) {
+                            obs.fail("C07", "unexplained-command-after-action", json!({"id": short(&n.id)}));
+                        }
+                    }
+                    if !pubs.iter().all(|p| w.contains_key(p)) || published.len() != act.publish.len() {
+                        obs.fail("C07", "published-command-missing-after-successful-action", json!({"published": published.len(), "want": act.publish.len()}));
+                    }
+                    check_committed(&mut a, &mut model, &all, &json!({"after": "action"}), true, &mut obs);
+                    // effects committed in publish order
+                    if let Some(b) = bl.first() {
+                        let got: Vec<Id> = b.consumed.iter().map(|e| e.id).collect();
+                        let want: Vec<Id> = published.iter().map(|p| p.id).collect();
+                        if got != want || b.end != BlockEnd::Commit {
+                            obs.fail("C07", "effects-of-successful-action-not-committed-in-order", json!({"got": got.len(), "want": want.len(), "end": format!("{:?}", b.end)}));
+                        }
+                    }
+                    // C04: hello head advertised before == merge the collapse wrote.
+                    if nheads > 1 {
+                        match w.get(&hello_before.0) {
+                            Some(c) if c.prio == Prio::Merge && c.max_cut == hello_before.1 => {
+                                if a.locate(&hello_before.0, hello_before.1).ok().flatten().is_none() {
+                                    obs.fail("C04", "hello-head-not-locatable-after-collapse", json!({"heads": nheads}));
+                                }
+                                // and it is the parent of the first published command (or the head)
+                            }
+                            other => obs.fail("C04", "hello-head-is-not-the-collapse-merge", json!({"heads": nheads, "found": format!("{other:?}")})),
+                        }
+                    }
+                    // C01 through delivery: A2 receives A's new commands and must converge.
+                    let mut order = newv.clone();
+                    order.sort();
+                    let steps = vec![Step::Add(order), Step::Commit];
+                    let out = run_history(&mut a2, &mut model, &steps, &base_all, &RunCfg { check_every_commit: true, check_blocks: true }, &mut obs);
+                    if !out.aborted {
+                        let (va, vb) = (final_view(&mut a), final_view(&mut a2));
+                        if va != vb {
+                            obs.fail("C01", "replica-that-acted-and-replica-that-received-differ", json!({"heads_equal": va.as_ref().map(|v| &v.0) == vb.as_ref().map(|v| &v.0), "facts_equal": va.as_ref().map(|v| &v.1) == vb.as_ref().map(|v| &v.1), "hello_equal": va.as_ref().map(|v| v.2) == vb.as_ref().map(|v| v.2)}));
+                        }
+                        obs.count("converged_after_action_delivery", 1);
+                    }
+                    // C19 on the post-action state.
+                    c19_pairs(&mut a, &mut model, &all, &mut rng, &mut obs);
+                }
+            }
+        }
+        (Err(_), false) => {
+            // C07 failure: nothing changed, nothing committed.
+            let heads_after = a.heads().unwrap();
+            let facts_after = a.facts().unwrap();
+            let walk_after: BTreeSet<Id> = a.walk().unwrap().keys().copied().collect();
+            if heads_after != heads_before {
+                obs.fail("C07", "failed-action-changed-heads", json!({"kind": kind, "before": heads_before.len(), "after": heads_after.len()}));
+            }
+            if facts_after != facts_before {
+                obs.fail("C07", "failed-action-changed-facts", json!({"kind": kind, "diff": facts_diff(&facts_after, &facts_before)}));
+            }
+            if walk_after != walk_before {
+                obs.fail("C07", "failed-action-changed-graph", json!({"kind": kind}));
+            }
+            if a.hello().ok() != Some(hello_before) {
+                obs.fail("C07", "failed-action-changed-hello-head", json!({"kind": kind}));
+            }
+            match bl.first() {
+                Some(b) if b.end == BlockEnd::Commit => obs.fail("C07", "failed-action-committed-effects", json!({"kind": kind})),
+                Some(b) if b.end == BlockEnd::Rollback => obs.count("failed_actions_rolled_back", 1),
+                _ => obs.count("failed_actions_sink_left_open", 1),
+            }
+            obs.count("failed_actions_checked", 1);
+            // The graph must still work afterwards: a successful action on top.
+            let (mut act2, _) = gen_action(&mut rng, cs ^ 0x55, 0x5000_0000);
+            act2.fail_after = None;
+            for p in &mut act2.publish {
+                p.script.ops.retain(|o| !matches!(o, Op::Fail));
+            }
+            if act2.publish.is_empty() {
+                act2.publish.push(PubSpec { prio: None, script: Script { tag: 0x5fff_0000, quiet: false, ops: vec![] } });
+            }
+            if let Err(e) = a.action(&act2) {
+                obs.fail("C07", "action-after-failed-action-fails", json!({"err": e.to_string()}));
+            } else if let Ok(w) = a.walk() {
+                if adopt(&mut model, &w).is_ok() {
+                    let all = all_bits(&model);
+                    check_committed(&mut a, &mut model, &all, &json!({"after": "action after failed action"}), true, &mut obs);
+                }
+            }
+        }
+        (Ok(()), false) => obs.fail("C07", "action-that-must-fail-succeeded", json!({"kind": kind})),
+        (Err(e), true) if act.publish.is_empty() => {
+            // An action that publishes nothing has nothing to commit; the runtime refuses to write
+            // an empty segment. The statement allows failure as long as nothing changed.
+            obs.count("empty_actions_refused", 1);
+            let _ = e;
+            if a.heads().unwrap() != heads_before || a.facts().unwrap() != facts_before {
+                obs.fail("C07", "refused-empty-action-changed-state", json!({"heads": nheads}));
+            }
+            if bl.first().is_some_and(|b| b.end == BlockEnd::Commit) {
+                obs.fail("C07", "refused-empty-action-committed-effects", json!({}));
+            }
+        }
+        (Err(e), true) => obs.fail("C07", "valid-action-failed", json!({"err": e.to_string(), "heads": nheads})),
+    }
+
+    let h = mix2(model.dag.shape_hash(), (nheads as u64) << 32 | act.publish.len() as u64 ^ hash_of(&kind));
+    for id in ["C04", "C07", "C19", "C01"] {
+        if let Some(m) = mons.get(id) {
+            m.eval();
+            let nt = match id {
+                "C04" => nheads >= 2,
+                "C07" => nheads >= 2 || (!expect_ok && !published.is_empty()) || act.publish.len() >= 2,
+                "C19" => true,
+                "C01" => expect_ok && nheads >= 2,
+                _ => false,
+            };
+            if nt {
+                m.nontrivial(h);
+            }
+            m.sample(|| json!({"mode": "lazy", "case_seed": cs, "heads_before": nheads, "action": kind, "publishes": act.publish.len(), "fail_after": act.fail_after, "commands": model.len()}));
+        }
+    }
+    mons.take(obs, case);
+}
+
+/// C19: for random down-sets D held by a second replica, hello decisions never suppress a needed sync.
+fn c19_pairs(a: &mut MemReplica, model: &mut Model, a_set: &Bits, rng: &mut Rng, obs: &mut Obs) {
+    let init = model.node(0).id;
+    // A merge command carries no payload and its id is derived from its parents, so a replica
+    // holding both parents "has" it (its own virtual hello head is that very command). Only
+    // non-merge commands count as commands the peer could be missing.
+    let non_merge = |model: &Model, s: &Bits| -> Bits {
+        let mut b = Bits::new(model.len());
+        for v in s.iter() {
+            if !matches!(model.node(v).par, Par::Merge(..)) {
+                b.set(v);
+            }
+        }
+        b
+    };
+    let ha = match a.hello() {
+        Ok(h) => h,
+        Err(e) => {
+            obs.fail("C19", "hello-head-failed", json!({"err": e.to_string()}));
+            return;
+        }
+    };
+    // absent graph always syncs
+    let mut empty = MemReplica::new_mem(&init);
+    match empty.should_sync(ha) {
+        Ok(true) => {}
+        other => obs.fail("C19", "replica-without-graph-declines-sync", json!({"got": format!("{other:?}")})),
+    }
+    for _ in 0..3 {
+        // random downward-closed subset of A's set (may be all of it)
+        let members: Vec<usize> = a_set.iter().collect();
+        let mut d = Bits::new(model.len());
+        let k = rng.urange(1, members.len().max(1));
+        for _ in 0..k {
+            let v = *rng.pick(&members);
+            d.or(model.ancestors(v));
+        }
+        d.set(0);
+        let mut b = MemReplica::new_mem(&init);
+        let dd = d.clone();
+        let steps = history(model, &|v| dd.get(v), &HistCfg { order: Order::RandomTopo, max_batch: 50, p_flush: 0, p_commit: 100, p_dup: 0 }, rng);
+        let none = Bits::new(model.len());
+        let mut o2 = Obs::default();
+        let out = run_history(&mut b, model, &steps, &none, &RunCfg { check_every_commit: false, check_blocks: false }, &mut o2);
+        if out.aborted || out.parallel_finalize {
+            continue;
+        }
+        obs.count("hello_pairs", 1);
+        // B hears A's hello.
+        match b.should_sync(ha) {
+            Ok(false) => {
+                obs.count("hello_declined", 1);
+                if !non_merge(model, a_set).is_subset(&d) {
+                    obs.fail("C19", "sync-suppressed-although-peer-has-unknown-commands", json!({"peer_commands": a_set.count(), "local_commands": d.count()}));
+                }
+            }
+            Ok(true) => {
+                obs.count("hello_accepted", 1);
+            }
+            Err(e) => obs.fail("C19", "should_sync_on_hello-failed", json!({"err": e.to_string()})),
+        }
+        // A hears B's hello.
+        if let Ok(hb) = b.hello() {
+            match a.should_sync(hb) {
+                Ok(false) => {
+                    obs.count("hello_declined", 1);
+                    if !non_merge(model, &d).is_subset(a_set) {
+                        obs.fail("C19", "sync-suppressed-although-peer-has-unknown-commands", json!({"direction": "reverse"}));
+                    }
+                }
+                Ok(true) => obs.count("hello_accepted", 1),
+                Err(e) => obs.fail("C19", "should_sync_on_hello-failed", json!({"err": e.to_string()})),
+            }
+            if d == *a_set && hb != ha {
+                obs.fail("C19", "equal-head-sets-different-hello-heads", json!({}));
+            }
+        }
+    }
+}
